@@ -27,6 +27,10 @@ pub enum Op {
     /// `extend(vec.into_iter().filter(..))`: an iterator whose size_hint upper bound exceeds what it yields;
     /// symbols equal to the code are dropped; `via_trait` selects `Extend::extend`
     ExtendFiltered(Vec<u8>, u8, bool),
+    /// `extend` from an iterator whose size_hint lower bound is positive but smaller than what it
+    /// yields: 0 exact.chain(filtered), 1 filtered.chain(exact), 2 a peeked filter, 3 `successors`
+    /// (+4: through the `Extend` trait)
+    ExtendChained(Vec<u8>, Vec<u8>, u8, u8),
     Append(Arg),
     Prepend(Arg),
     Insert(u16, Arg),
@@ -174,6 +178,36 @@ fn check<C: Cm>(case: &Case) -> PResult {
                     no_panic(&format!("extend_panic/{n}"), &desc, || target.extend(sy.vec(&v).into_iter().filter(move |s| s.to_bits() != d)))
                 }
             }
+            Op::ExtendChained(v, w, drop, shape) => {
+                let fix = |v: &Vec<u8>| -> Vec<u8> { v.iter().map(|c| if m.codes().contains(c) { *c } else { m.codes()[0] }).collect() };
+                let (v, w) = (fix(v), fix(w));
+                let d = *drop;
+                let keep = move |s: &C| s.to_bits() != d;
+                let (sv, sw) = (sy.vec(&v), sy.vec(&w));
+                let (items, it): (Vec<u8>, Box<dyn Iterator<Item = C>>) = match shape % 4 {
+                    0 => (v.iter().copied().chain(w.iter().copied().filter(|c| *c != d)).collect(), Box::new(sv.into_iter().chain(sw.into_iter().filter(keep)))),
+                    1 => (v.iter().copied().filter(|c| *c != d).chain(w.iter().copied()).collect(), Box::new(sv.into_iter().filter(keep).chain(sw.into_iter()))),
+                    2 => {
+                        let mut pk = sv.into_iter().chain(sw.into_iter()).filter(keep).peekable();
+                        let _ = pk.peek();
+                        (v.iter().chain(w.iter()).copied().filter(|c| *c != d).collect(), Box::new(pk))
+                    }
+                    _ => {
+                        let all: Vec<C> = sv.into_iter().chain(sw.into_iter()).collect();
+                        let mut k = 0usize;
+                        let first = all.first().copied();
+                        (v.iter().chain(w.iter()).copied().collect(), Box::new(std::iter::successors(first, move |_| { k += 1; all.get(k).copied() })))
+                    }
+                };
+                desc = format!("extend(iterator shape {} yielding {} symbols, size_hint {:?})", shape % 4, items.len(), it.size_hint());
+                model.extend_from_slice(&items);
+                edits += 1;
+                if shape & 4 != 0 {
+                    no_panic(&format!("extend_panic/{n}"), &desc, || Extend::extend(&mut target, it))
+                } else {
+                    no_panic(&format!("extend_panic/{n}"), &desc, || target.extend(it))
+                }
+            }
             Op::Append(_) => {
                 desc = format!("append({} symbols)", arg_codes.len());
                 model.extend_from_slice(&arg_codes);
@@ -285,6 +319,7 @@ fn op(id: CodecId) -> BoxedStrategy<Op> {
         1 => gen::codes(m, 40).prop_map(Op::ExtendInherent),
         1 => gen::codes(m, 40).prop_map(Op::ExtendTrait),
         1 => (gen::codes(m, 40), gen::code(m), any::<bool>()).prop_map(|(v, d, t)| Op::ExtendFiltered(v, d, t)),
+        1 => (gen::codes(m, 40), gen::codes(m, 40), gen::code(m), 0..8u8).prop_map(|(v, w, d, s)| Op::ExtendChained(v, w, d, s)),
         2 => arg(id).prop_map(Op::Append),
         2 => arg(id).prop_map(Op::Prepend),
         3 => (any::<u16>(), arg(id)).prop_map(|(p, a)| Op::Insert(p, a)),
@@ -313,6 +348,7 @@ fn grid(id: CodecId) -> Vec<Op> {
         Op::Push(y),
         Op::ExtendInherent(vec![x, y]),
         Op::ExtendFiltered(vec![x, y, y, x, y], x, false),
+        Op::ExtendChained(vec![x, y], vec![y, x, y], x, 0),
         Op::Append(Arg::Other(w1.clone())),
         Op::Append(Arg::SelfWindow { a: 20000, b: 40000 }),
         Op::Prepend(Arg::Other(w1.clone())),
